@@ -32,6 +32,8 @@ type C07Scenario struct {
 	Victim     string     `json:"victim"`     // zone whose names the adversary lies about
 	Behaviours []string   `json:"behaviours"` // see c07Behaviours
 	Spoof      []string   `json:"spoof,omitempty"` // wrong-id wrong-question right-id-wrong-question
+	OwnerCase  uint32     `json:"owner_case,omitempty"` // letter-case mask of the owner names in the adversary's authority sections
+	SlowSelfMs int        `json:"slow_self_ms,omitempty"` // the adversary delays its self-referrals by this much (lease-expiry race)
 	Ops        []C07Op    `json:"ops"`
 }
 
@@ -111,6 +113,9 @@ func genC07(r *kit.RNG) *C07Scenario {
 	if len(sc.Behaviours) == 0 {
 		sc.Behaviours = []string{kit.Pick(r, c07Behaviours)}
 	}
+	if r.Chance(0.35) {
+		sc.OwnerCase = uint32(r.Uint64()) // names are case-insensitive: ExAmPlE.com. is example.com.
+	}
 	for _, s := range []string{"wrong-id", "wrong-question", "right-id-wrong-question"} {
 		if r.Chance(0.25) {
 			sc.Spoof = append(sc.Spoof, s)
@@ -127,6 +132,30 @@ func genC07(r *kit.RNG) *C07Scenario {
 			op.Name = kit.Pick(r, vict)
 		}
 		sc.Ops = append(sc.Ops, op)
+	}
+	if r.Chance(0.2) {
+		// lease-expiry race: Z's delegation is cached with a 10 s lease by a prompt answer; a
+		// question sent to Z's servers shortly before the lease runs out is answered, after it
+		// has run out, with a referral for Z itself. Nothing is cached for Z at that moment:
+		// only the rule "strictly below the zone that was asked" stands between the sender's
+		// own NS set and the delegation cache (ghost-domain re-delegation).
+		for i := range sc.World.Zones {
+			if dns.CanonicalName(sc.World.Zones[i].Name) == sc.Adversary {
+				sc.World.Zones[i].NSTTL = 10
+			}
+		}
+		sc.SlowSelfMs = 1200
+		keep := sc.Behaviours[:0]
+		for _, b := range sc.Behaviours {
+			if b != "referral-sideways" && b != "referral-self" { // sideways shadows self on the same trigger
+				keep = append(keep, b)
+			}
+		}
+		sc.Behaviours = append(keep, "referral-self")
+		race := []C07Op{{Name: "www." + sc.Adversary, Type: dns.TypeA, GapMs: 61000}, {Name: "x." + sc.Adversary, Type: dns.TypeA, GapMs: kit.Pick(r, []int{6100, 6350, 6600})},
+			{Name: "x." + sc.Adversary, Type: dns.TypeA, GapMs: 1000}, {Name: "www." + sc.Adversary, Type: dns.TypeA, GapMs: 1000}}
+		at := r.Intn(len(sc.Ops) + 1)
+		sc.Ops = append(sc.Ops[:at:at], append(race, sc.Ops[at:]...)...)
 	}
 	return sc
 }
@@ -195,6 +224,7 @@ func execC07(sc *C07Scenario, tr *kit.Trace, res *kit.Result) {
 		qn := dns.CanonicalName(qu.Name)
 		m := honest.Msg.Copy()
 		fired := func(b string) { res.Fault("adv:" + b); tr.AddAt(w.Now(), "adversary %s on %s/%s", b, qn, dns.TypeToString[qu.Qtype]) }
+		nsRR := func(owner, host string) dns.RR { return nsRR(c20Case(owner, sc.OwnerCase), host) }
 		switch {
 		case has("referral-sideways") && strings.HasPrefix(qn, "x."):
 			m.Answer, m.Ns, m.Extra = nil, []dns.RR{nsRR(V, evilHost)}, []dns.RR{evilA(evilHost, 86400)}
@@ -211,6 +241,13 @@ func execC07(sc *C07Scenario, tr *kit.Trace, res *kit.Result) {
 			m.Authoritative = false
 			m.Rcode = dns.RcodeSuccess
 			fired("referral-self")
+			if sc.SlowSelfMs > 0 {
+				rp := world.PackReply(m, q)
+				for i := range rp {
+					rp[i].Delay = time.Duration(sc.SlowSelfMs) * time.Millisecond
+				}
+				return rp
+			}
 		case has("referral-mixed") && strings.HasPrefix(qn, "www.child."):
 			m.Answer, m.Ns = nil, []dns.RR{nsRR("child."+Z, evilHost), nsRR(V, evilHost)}
 			m.Extra = []dns.RR{evilA(evilHost, 86400)}
@@ -305,6 +342,7 @@ func execC07(sc *C07Scenario, tr *kit.Trace, res *kit.Result) {
 		q.RecursionDesired = true
 		q.SetEdns0(1232, false)
 		nonZBefore := len(evilNonZ)
+		evilBefore := evilQueries
 		dialsBefore := len(w.Net.Dials)
 		c := w.Ask(netip.MustParseAddrPort("10.9.0.1:40000"), "udp", q)
 		kit.SleepSettle(3 * time.Second)
@@ -328,6 +366,16 @@ func execC07(sc *C07Scenario, tr *kit.Trace, res *kit.Result) {
 			}
 		}
 		// (d) no question for a name outside Z goes to the attacker's address
+		if evilQueries > evilBefore && len(evilNonZ) == nonZBefore && !has("referral-mixed") {
+			// The attacker's server is named only by referrals that must be refused: for the
+			// victim (sideways), for the parent (upward), for Z itself (not strictly below the
+			// zone that was asked, whatever the letter case of the owner), and as glue for a
+			// host outside Z. (A mixed-owner referral contains a set for child.Z, which Z may
+			// delegate to whom it likes; scenarios with it are not judged here.)
+			res.Fail("C07/refused-referral-followed", "%s: the attacker's server %s received %d queries although no acceptable referral names it (behaviours %v, owner-case mask %#x): a self, upward or sideways referral was followed",
+				ctx, c07Evil, evilQueries-evilBefore, sc.Behaviours, sc.OwnerCase)
+			return
+		}
 		if len(evilNonZ) > nonZBefore {
 			res.Fail("C07/victim-question-to-attacker", "%s: questions for names outside %s were sent to the attacker's server %s: %v", ctx, Z, c07Evil, evilNonZ[nonZBefore:])
 			return
